@@ -4163,6 +4163,131 @@ def spec_hidden_element_nothing(ctx, make_exe):
     return {"function": f.name, "paths": len(outs)}
 
 # ----------------------------------------------------------------------------
+# SPEC: the Sup arm of do_render_node renders all its children, or - the digits shortcut - replaces a *single* text
+# child by superscript characters; it never finishes without its children when there are several.
+# ----------------------------------------------------------------------------
+
+def spec_sup_children_kept(ctx, make_exe):
+    import summaries
+    orig = summaries.summarize
+    f = the(ctx.find(r"^do_render_node$"), "do_render_node")
+    total = 0
+    for n in (1, 2, 3):
+        exe = make_exe(loop_bound=6, inline=[r"sup_digits$"])
+        st = State()
+        kids = VVec([VOpaque("RenderNode", "child%d" % k) for k in range(n)])
+        node = _agg(ctx, "RenderNode", info=VAgg("RenderNodeInfo::Sup", "Sup", [kids]), style=VOpaque("ComputedStyle", "style"),
+                    size_estimate=VAgg("Cell", None, [VAgg("Option::None", "None", [])]))
+
+        def summ(exe_, st_, f_, bb_, callee, args, dest_ty):
+            c = callee.strip()
+            if re.search(r"PushedStyleInfo::apply", c):
+                return [(st_, VOpaque("PushedStyleInfo", "pushed"))]
+            if re.search(r"PushedStyleInfo::unwind", c):
+                return [(st_, VUnit())]
+            if re.search(r"^pending2::<", c):
+                return [(st_, VAgg("TreeMapResultModel", None, [args[0], args[1]]))]
+            if re.search(r"<Chars<'_> as Iterator>::all::<", c):
+                return [(st_, exe_.fresh("bool", exe_.fresh_name("all_digits")))]
+            if re.search(r"core::str::<impl str>::(chars|bytes)$", c):
+                return [(st_, VOpaque("Iter", exe_.fresh_name("iter")))]
+            if re.search(r"<String as Deref>::deref$", c):
+                return [(st_, VRef("val", VOpaque("str", exe_.fresh_name("str"))))]
+            if re.search(r"as Iterator>::map::<|as Iterator>::collect::<String>$", c):
+                return [(st_, VOpaque("String", exe_.fresh_name("digits")))]
+            return orig(exe_, st_, f_, bb_, callee, args, dest_ty)
+        summaries.summarize = summ
+        try:
+            try:
+                outs = exe.run(f.name, {1: VRef("val", VOpaque("TextRenderer<D>", "renderer")), 2: node, 3: VRef("val", VOpaque("T", "err_out"))}, st)
+            except PathEnd as e:
+                raise Inconclusive("Sup arm: %s" % e)
+        finally:
+            summaries.summarize = orig
+        if not outs:
+            raise Inconclusive("Sup arm: no path returned")
+        total += len(outs)
+        n_pending = n_short = 0
+        for (s2, ret) in outs:
+            if not (isinstance(ret, VAgg) and ret.variant == "Ok"):
+                continue
+            tm = ret.fields[0]
+            if isinstance(tm, VAgg) and tm.path == "TreeMapResultModel":
+                n_pending += 1
+                names = [getattr(x, "name", "?") for x in tm.fields[0].elems] if isinstance(tm.fields[0], VVec) else None
+                post(exe, s2, z3.BoolVal(names == ["child%d" % k for k in range(n)]), f.name, "Sup with %d children: all children are rendered, in order (%s)" % (n, names))
+            elif isinstance(tm, VAgg) and tm.variant == "Finished":
+                n_short += 1
+                post(exe, s2, z3.BoolVal(n == 1), f.name, "Sup with %d children: the digits shortcut replaces a single text child only" % n)
+                adds = [c for c in s2.calls if c[2] == f.name and re.search(r"add_inline_text$", c[0])]
+                post(exe, s2, z3.BoolVal(len(adds) == 1), f.name, "Sup: the shortcut emits its replacement text once")
+            else:
+                raise Inconclusive("Sup arm: result not recovered")
+        if n_pending == 0:
+            post(exe, st, z3.BoolVal(False), f.name, "Sup with %d children: no way through the arm renders the children" % n)
+    return {"function": f.name, "paths": total}
+
+# ----------------------------------------------------------------------------
+# SPEC: a fragment marker that opens a text block opens the same block text would: as wide as min(wrap width, width)
+# (record_frag_start; the block is created by whoever comes first, marker or text, so an id must not change the layout)
+# ----------------------------------------------------------------------------
+
+def spec_frag_block_width(ctx, make_exe):
+    import summaries
+    orig = summaries.summarize
+    fs = [g for g in ctx.find(r"::record_frag_start$") if g.args and "SubRenderer" in g.args[0][1]]
+    f = the(fs, "SubRenderer::record_frag_start")
+    total = 0
+    for has_max in (True, False):
+        exe = make_exe(loop_bound=4, inline=[r"^get_wrapping_or_insert"])
+        st = State()
+        w = exe.fresh("usize", "width")
+        mw = exe.fresh("usize", "max_wrap_width")
+        ww = VAgg("Option::Some", "Some", [mw]) if has_max else VAgg("Option::None", "None", [])
+        pad = exe.fresh("bool", "pad_block_width")
+        ovf = exe.fresh("bool", "allow_width_overflow")
+        opts = _agg(ctx, "RenderOptions", wrap_width=ww, pad_block_width=pad, allow_width_overflow=ovf)
+        sub = _agg(ctx, "SubRenderer", width=w, options=opts, wrapping=VAgg("Option::None", "None", []))
+        made = []
+
+        def summ(exe_, st_, f_, bb_, callee, args, dest_ty, made=made):
+            c = callee.strip()
+            if re.search(r"Option::<WrappedBlock<.*>>::get_or_insert_with::<", c):
+                outs_ = []
+                for (s3, blk) in exe_.call_closure(st_, args[1], []):
+                    outs_.append((s3, VRef("val", blk)))
+                return outs_
+            if re.search(r"WrappedBlock::<.*>::new$", c):
+                st_.calls.append(("block_made", list(args), f_.name, bb_))
+                return [(st_, VOpaque("WrappedBlock", exe_.fresh_name("block")))]
+            if re.search(r"WrappedBlock::<.*>::add_element$", c):
+                return [(st_, VUnit())]
+            return orig(exe_, st_, f_, bb_, callee, args, dest_ty)
+        summaries.summarize = summ
+        try:
+            try:
+                outs = exe.run(f.name, {1: VRef("val", sub), 2: VRef("val", VOpaque("str", "fragname"))}, st)
+            except PathEnd as e:
+                raise Inconclusive("record_frag_start: %s" % e)
+        finally:
+            summaries.summarize = orig
+        if not outs:
+            raise Inconclusive("record_frag_start: no path returned")
+        total += len(outs)
+        for (s2, ret) in outs:
+            blocks = [cl[1] for cl in s2.calls if cl[0] == "block_made"]
+            post(exe, s2, z3.BoolVal(len(blocks) == 1), f.name, "a marker without an open block opens exactly one")
+            if len(blocks) != 1:
+                continue
+            bw, bpad, bovf = blocks[0][0], blocks[0][1], blocks[0][2]
+            want = z3.If(z3.ULT(mw.e, w.e), mw.e, w.e) if has_max else w.e
+            post(exe, s2, bw.e == want if isinstance(bw, VInt) else z3.BoolVal(False), f.name,
+                 "the block a marker opens is min(maximum wrap width, width) wide, like the block text opens")
+            post(exe, s2, z3.And(bpad.e == pad.e, bovf.e == ovf.e) if isinstance(bpad, VBool) and isinstance(bovf, VBool) else z3.BoolVal(False), f.name,
+                 "the block a marker opens has the renderer's padding and overflow options")
+    return {"function": f.name, "paths": total}
+
+# ----------------------------------------------------------------------------
 # SPEC: Selector::matches is do_matches on the whole component list: nothing in front of it may decide the answer.
 # (do_matches itself is the subject of selector_simple / selector_combinators / nth_child_arith.)
 # ----------------------------------------------------------------------------
@@ -5334,6 +5459,16 @@ ALL = [
          bounds="every sequence of 4 (thorough: 5) tokens over {identifier, ( ) [ ] { } ;}, then end of input",
          assumptions=["parse_token delivers the scripted tokens; derived PartialEq on Token compares discriminants for bracket tokens"],
          replay=lambda fd, vals, info: {"harness": "m_at_rule_skip", "values": [[0]]}),
+    Spec("sup_children_kept", ["C03"], spec_sup_children_kept,
+         functions=["do_render_node (Sup arm) and its helper sup_digits"],
+         bounds="1, 2 and 3 opaque children (any node kinds, any text)",
+         assumptions=["whether a text consists of digits is an arbitrary boolean; the replacement string is opaque; pending2 is observed"],
+         replay=lambda fd, vals, info: {"harness": "m_sup_children", "values": [[0]]}),
+    Spec("frag_block_width", ["C14", "C15"], spec_frag_block_width,
+         functions=["<SubRenderer<D> as Renderer>::record_frag_start", "get_wrapping_or_insert and its closure"],
+         bounds="no block open; width, maximum wrap width (present or absent), padding and overflow options symbolic",
+         assumptions=["Option::get_or_insert_with on None calls its closure; WrappedBlock::new is observed (t2_wrap_width decides the same formula under Kani)"],
+         replay=lambda fd, vals, info: {"harness": "m_frag_layout", "values": [[0]]}),
     Spec("selector_entry", ["C20"], spec_selector_entry,
          functions=["Selector::matches"],
          bounds="component lists of 0, 1, 3, 3 and 5 components (class / element / id / star compounds, child and descendant combinators) with opaque names",
